@@ -53,7 +53,7 @@ def nontrivial(c):
 
 
 def correspond(ctx, C):
-    n = 6000 if ctx.tier == "quick" else 400000
+    n = 20000 if ctx.tier == "quick" else 400000
     if ctx.search:
         n *= 3
     rows = C.run_family("values", n, ctx.seed, ctx.tier, replay=S.replay_file(ctx, C))
